@@ -948,12 +948,22 @@ def ladder(expr):
 
 
 def _nnf(test, pol, out):
-    """conjuncts of `test` (pol=True) or of `not test` (pol=False), as (source, polarity) with != / not in / is not canonicalised"""
+    """conjuncts of `test` (pol=True) or of `not test` (pol=False) as (source, polarity); `!=`, `not in`, `is not` are written positively.
+    A fact that is not a conjunction (a true `or`, a false `and`) is ONE conjunct, written canonically (De Morgan applied) as
+    OR(<literal>; <literal>; ...) with sorted members, each member a literal or AND(...)"""
     if isinstance(test, ast.UnaryOp) and isinstance(test.op, ast.Not):
         return _nnf(test.operand, not pol, out)
     if isinstance(test, ast.BoolOp) and ((isinstance(test.op, ast.And) and pol) or (isinstance(test.op, ast.Or) and not pol)):
         for v in test.values:
             _nnf(v, pol, out)
+        return out
+    if isinstance(test, ast.BoolOp):
+        members = []
+        for v in test.values:
+            lits = _nnf(v, pol, [])
+            txt = [("" if p_ else "not ") + s_ for s_, p_ in lits]
+            members.append(txt[0] if len(txt) == 1 else "AND(" + "; ".join(sorted(txt)) + ")")
+        out.append(("OR(" + "; ".join(sorted(members)) + ")", True))
         return out
     if isinstance(test, ast.Compare) and len(test.ops) == 1:
         flip = {ast.NotEq: ast.Eq, ast.NotIn: ast.In, ast.IsNot: ast.Is}
